@@ -48,9 +48,10 @@ VARIABLES data,     \* set of cached keys                     (keys of rel.data)
           obj,      \* object identity of every cached value: [k |-> key, c |-> creation count]
           dirty,    \* objects written in place after creation
           handed,   \* objects the user holds: inputs and everything returned so far
-          status    \* "ok" | name of the exception that ended the last request
+          status,   \* "ok" | name of the exception that ended the last request
+          nset      \* number of rel.data[k] = v assignments made by the user after construction
 
-vars == <<data, age, count, frozen, stack, nreq, hist, obj, dirty, handed, status>>
+vars == <<data, age, count, frozen, stack, nreq, hist, obj, dirty, handed, status, nset>>
 
 Top      == stack[Len(stack)]
 Node(f)  == Prog[f.key][f.node]
@@ -70,7 +71,7 @@ Init == /\ data = Inputs
         /\ obj = [k \in Inputs |-> InputObj(k)]
         /\ dirty = {}
         /\ handed = {InputObj(k) : k \in Inputs}
-        /\ status = "ok"
+        /\ status = "ok" /\ nset = 0
 
 Touch(a, x, c) == [y \in (DOMAIN a) \cup {x} |-> IF y = x THEN c ELSE a[y]]
 
@@ -78,7 +79,7 @@ Touch(a, x, c) == [y \in (DOMAIN a) \cup {x} |-> IF y = x THEN c ELSE a[y]]
 (* user actions *)
 Request(k) ==
     /\ stack = << >> /\ nreq < MaxRequests /\ k \in Requests
-    /\ nreq' = nreq + 1 /\ hist' = Append(hist, k) /\ status' = "ok"
+    /\ nreq' = nreq + 1 /\ hist' = Append(hist, k) /\ status' = "ok" /\ nset' = nset
     /\ IF k \in data
        THEN /\ age' = Touch(age, k, count)
             /\ handed' = handed \cup {obj[k]}
@@ -86,11 +87,21 @@ Request(k) ==
        ELSE /\ stack' = <<Frame(k)>>
             /\ UNCHANGED <<data, age, count, frozen, obj, dirty, handed>>
 
+(* rel.data[k] = v by the user between requests: a new object the user holds; the age table is not touched, *)
+(* an importance of 0 set earlier for k stays (freeze_data marks keys, not objects)                        *)
+UserSet(k) ==
+    /\ stack = << >> /\ k \notin Helpers
+    /\ data' = data \cup {k}
+    /\ nset' = nset + 1
+    /\ obj' = [y \in data \cup {k} |-> IF y = k THEN [k |-> k, c |-> 0 - (nset + 1)] ELSE obj[y]]
+    /\ handed' = handed \cup {[k |-> k, c |-> 0 - (nset + 1)]}
+    /\ UNCHANGED <<age, count, frozen, stack, nreq, hist, dirty, status>>
+
 Freeze ==
     /\ AllowFreeze /\ stack = << >> /\ ~(data \subseteq frozen) /\ nreq < MaxRequests
     /\ frozen' = frozen \cup data
     /\ hist' = Append(hist, "!freeze")
-    /\ UNCHANGED <<data, age, count, stack, nreq, obj, dirty, handed, status>>
+    /\ UNCHANGED <<data, age, count, stack, nreq, obj, dirty, handed, status, nset>>
 
 -----------------------------------------------------------------------------
 (* clean-up: which sets may be removed when `k` has just been stored *)
@@ -114,30 +125,30 @@ StepRead ==
        IF x \in data
        THEN /\ age' = Touch(age, x, count)
             /\ stack' = [stack EXCEPT ![Len(stack)] = [Hold(Top, x, obj[x]) EXCEPT !.node = Node(Top).a]]
-            /\ UNCHANGED <<data, count, frozen, nreq, hist, obj, dirty, handed, status>>
+            /\ UNCHANGED <<data, count, frozen, nreq, hist, obj, dirty, handed, status, nset>>
        ELSE IF x \in Keys
        THEN /\ stack' = Append(stack, Frame(x))
-            /\ UNCHANGED <<data, age, count, frozen, nreq, hist, obj, dirty, handed, status>>
+            /\ UNCHANGED <<data, age, count, frozen, nreq, hist, obj, dirty, handed, status, nset>>
        ELSE \* neither cached nor computable: getattr raises AttributeError
             /\ stack' = << >> /\ status' = "AttributeError"
-            /\ UNCHANGED <<data, age, count, frozen, nreq, hist, obj, dirty, handed>>
+            /\ UNCHANGED <<data, age, count, frozen, nreq, hist, obj, dirty, handed, nset>>
 
 StepDirect ==
     /\ stack # << >> /\ Node(Top).op = "d"
     /\ IF Node(Top).key \in data
        THEN Advance(Node(Top).a) /\ status' = status
        ELSE stack' = << >> /\ status' = "KeyError"
-    /\ UNCHANGED <<data, age, count, frozen, nreq, hist, obj, dirty, handed>>
+    /\ UNCHANGED <<data, age, count, frozen, nreq, hist, obj, dirty, handed, nset>>
 
 StepTest ==
     /\ stack # << >> /\ Node(Top).op = "t"
     /\ Advance(IF Node(Top).key \in data THEN Node(Top).a ELSE Node(Top).b)
-    /\ UNCHANGED <<data, age, count, frozen, nreq, hist, obj, dirty, handed, status>>
+    /\ UNCHANGED <<data, age, count, frozen, nreq, hist, obj, dirty, handed, status, nset>>
 
 Raise ==
     /\ stack # << >> /\ Node(Top).op = "end" /\ Node(Top).err # ""
     /\ stack' = << >> /\ status' = Node(Top).err
-    /\ UNCHANGED <<data, age, count, frozen, nreq, hist, obj, dirty, handed>>
+    /\ UNCHANGED <<data, age, count, frozen, nreq, hist, obj, dirty, handed, nset>>
 
 (* pop the finished frame; the caller (if any) moves past its read *)
 Pop(o) == IF Len(stack) = 1 THEN << >>
@@ -148,7 +159,7 @@ Pop(o) == IF Len(stack) = 1 THEN << >>
 ReturnHelper ==
     /\ stack # << >> /\ Node(Top).op = "end" /\ Node(Top).err = "" /\ Top.key \in Helpers
     /\ stack' = Pop(InputObj(Top.key))
-    /\ UNCHANGED <<data, age, count, frozen, nreq, hist, obj, dirty, handed, status>>
+    /\ UNCHANGED <<data, age, count, frozen, nreq, hist, obj, dirty, handed, status, nset>>
 
 (* Sd = entries removed from the cache, Sa = entries removed from the age table by the clean-up *)
 ReturnWith(Sd, Sa) ==
@@ -167,7 +178,7 @@ ReturnWith(Sd, Sa) ==
            /\ obj'  = [y \in d1 \ Sd |-> o1[y]]
            /\ handed' = IF Len(stack) = 1 THEN handed \cup {o} ELSE handed
            /\ stack' = Pop(o)
-           /\ UNCHANGED <<frozen, nreq, hist, status>>
+           /\ UNCHANGED <<frozen, nreq, hist, status, nset>>
 
 Return == /\ stack # << >> /\ Node(Top).op = "end"
           /\ \E S \in Choices(Touch(age, Top.key, count + 1), count + 1) : ReturnWith(S, S)
